@@ -4,6 +4,7 @@ import (
 	"bufio"
 	"bytes"
 	"encoding/binary"
+	"encoding/json"
 	"fmt"
 	"io"
 	"os"
@@ -305,6 +306,33 @@ func C20(rep *ev.Reporter, tier string) {
 			}
 		}
 	}
+	// JSON loaders: every value of a seed replaced by each of a small set of alien values, and every
+	// token string of length <= 4 over a JSON token alphabet
+	jsonAlts := []string{"null", "true", "0", "-1", `""`, "[]", "{}", "[null]", `{"a":null}`, "1e999", `"\u0000"`}
+	for _, l := range []int{c20JSONRule, c20JSONFact} {
+		for si, seed := range seeds[l] {
+			if si >= nSeeds+1 {
+				break
+			}
+			for _, m := range c20JSONMutations(seed, jsonAlts) {
+				add(l, "json-value-substitution", m)
+			}
+		}
+		jt := []string{"[", "]", "{", "}", "null", "true", "0", `""`, ",", ":", `"name"`, `"when"`, `"then"`}
+		var rec func(cur string, depth int)
+		rec = func(cur string, depth int) {
+			if depth > 0 {
+				add(l, "json-tokens", []byte(cur))
+			}
+			if depth == 4 {
+				return
+			}
+			for _, t := range jt {
+				rec(cur+t, depth+1)
+			}
+		}
+		rec("", 0)
+	}
 	// boundary numbers and nesting
 	nums := []string{"2147483647", "2147483648", "-2147483649", "9223372036854775807", "9223372036854775808", "18446744073709551616", strings.Repeat("9", 400), "1e999", "-1e999", "0x" + strings.Repeat("f", 40), "0" + strings.Repeat("7", 40), "1." + strings.Repeat("0", 400) + "1", "1e-999"}
 	for _, n := range nums {
@@ -460,7 +488,7 @@ func C20(rep *ev.Reporter, tier string) {
 		rep.Exhaustive = false
 		rep.Coverage["caps_hit"] = fmt.Sprintf("time budget: %d of %d inputs run", ran, total)
 	}
-	rep.Coverage["rule"] = "four loaders (GRL text via the builder, JSON rule via JSONResource+builder, JSON fact via DataContext.AddJSON, binary stream via LoadKnowledgeBaseFromReader), bounded-exhaustive input spaces, no sampling: every byte string of length <= 2 and every length-3 string over a 24-byte structural alphabet; for each valid seed every single-point mutation (every bit flip, every byte set to 00/7f/80/ff, truncation at every offset), every field start of a binary seed (boundaries from a tracing writer) overwritten with 13 boundary values, splices of seed pairs, boundary numbers in every numeric position, nesting depth 10..2000. Each input runs in a child process under RLIMIT_AS (ulimit -v 4 GiB): the worker must survive (no escaped panic, no runtime abort), return a value or an error, allocate at most 8 MiB + 2048 bytes per input byte (runtime.MemStats.TotalAlloc delta) and finish within the hang horizon. Every input is non-trivial (it exercises a loader end to end)."
+	rep.Coverage["rule"] = "four loaders (GRL text via the builder, JSON rule via JSONResource+builder, JSON fact via DataContext.AddJSON, binary stream via LoadKnowledgeBaseFromReader), bounded-exhaustive input spaces, no sampling: every byte string of length <= 2 and every length-3 string over a 24-byte structural alphabet; for each valid seed every single-point mutation (every bit flip, every byte set to 00/7f/80/ff, truncation at every offset), every field start of a binary seed (boundaries from a tracing writer) overwritten with 13 boundary values, splices of seed pairs, boundary numbers in every numeric position, nesting depth 10..2000; for the JSON loaders every value of a seed (at every path) replaced by each of 11 alien values (null, true, numbers, empty and null-holding containers, 1e999) and every token string of length <= 4 over a 13-token JSON alphabet. Each input runs in a child process under RLIMIT_AS (ulimit -v 4 GiB): the worker must survive (no escaped panic, no runtime abort), return a value or an error, allocate at most 8 MiB + 2048 bytes per input byte (runtime.MemStats.TotalAlloc delta) and finish within the hang horizon. Every input is non-trivial (it exercises a loader end to end)."
 	rep.Assumptions = append(rep.Assumptions, "uniformly random long inputs are sampling and outside this family; hang detection uses a wall clock (30 s for inputs that take microseconds, confirmed twice in isolation)")
 }
 
@@ -495,4 +523,45 @@ func c20Bounds(stream []byte) []int {
 		return out
 	}
 	return append([]int{0}, tw.bounds...)
+}
+
+// c20JSONMutations returns the seed with each JSON value (at every path) replaced by each alternative.
+func c20JSONMutations(seed []byte, alts []string) [][]byte {
+	var root interface{}
+	if json.Unmarshal(seed, &root) != nil {
+		return nil
+	}
+	var out [][]byte
+	const marker = "\u0001MARK\u0001"
+	var walk func(get func() interface{}, set func(interface{}))
+	emit := func() {
+		b, err := json.Marshal(root)
+		if err != nil {
+			return
+		}
+		q, _ := json.Marshal(marker)
+		for _, a := range alts {
+			out = append(out, bytes.Replace(b, q, []byte(a), 1))
+		}
+	}
+	walk = func(get func() interface{}, set func(interface{})) {
+		orig := get()
+		set(marker)
+		emit()
+		set(orig)
+		switch x := orig.(type) {
+		case map[string]interface{}:
+			for k := range x {
+				k := k
+				walk(func() interface{} { return x[k] }, func(v interface{}) { x[k] = v })
+			}
+		case []interface{}:
+			for i := range x {
+				i := i
+				walk(func() interface{} { return x[i] }, func(v interface{}) { x[i] = v })
+			}
+		}
+	}
+	walk(func() interface{} { return root }, func(v interface{}) { root = v })
+	return out
 }
